@@ -67,3 +67,34 @@ Theorem grain_terms :
   option_map red (factor_entry [1; 0]%Q g) = Some [(1 # 1, 1%nat, 1 # 1)]%Q.
 Proof. vm_compute. split; reflexivity. Qed.
 Print Assumptions grain_terms.
+
+(** text level.  The matrix entries are written "0.0 + q * ab[IDX_k] / d / Hnuclei + ...",
+    the factors "q * rptr[IDX_ELEM_j] / d + ...".  For EVERY list of terms these texts, lexed
+    and parsed as C, are the left-nested sums of the quotients, and with the printed numbers
+    read back they have the values the theorems above are about (ev_matrix_entry, ev_factor). *)
+From Naunet Require Import Model.CExpr Model.OdeText Model.SumText Model.RenormText Proofs.SumTextProofs Proofs.RenormTextProofs.
+
+Theorem matrix_text_is_entry : forall ab rv Hn hn (l : list Renorm.term),
+  parse (matrix_entry_txt hn (atoms_from 0 l)) = Some (gsum_ex (SLit zero_lit) (map (mterm_more hn) (atoms_from 0 l))) /\
+  denR ab rv Hn hn (magv 0 l) (gsum_ex (SLit zero_lit) (map (mterm_more hn) (atoms_from 0 l))) = ev_matrix_entry ab Hn l.
+Proof. exact matrix_text_value. Qed.
+Print Assumptions matrix_text_is_entry.
+
+Theorem factor_text_is_factor : forall ab rv Hn hn (t : Renorm.term) (r : list Renorm.term),
+  match atoms_from 0 (t :: r) with
+  | a0 :: ar =>
+      parse (gsum_txt true (fterm_smd a0) (map (fun u => (false, fterm_smd u)) ar))
+        = Some (gsum_ex (fterm_smd a0) (map (fun u => (false, fterm_smd u)) ar)) /\
+      denR ab rv Hn hn (magv 0 (t :: r)) (gsum_ex (fterm_smd a0) (map (fun u => (false, fterm_smd u)) ar))
+        = ev_factor rv (Some (t :: r))
+  | [] => False
+  end.
+Proof. exact factor_text_value. Qed.
+Print Assumptions factor_text_is_factor.
+
+(* any sum of products / quotients of atomic operands written by the generator parses to
+   the left-nested expression (the general statement behind the two above) *)
+Theorem sums_of_quotients_parse : forall sp x ms, lit_ok x -> Forall (fun m => lit_ok (snd m)) ms ->
+  parse (gsum_txt sp x ms) = Some (gsum_ex x ms).
+Proof. exact parse_gsum. Qed.
+Print Assumptions sums_of_quotients_parse.
